@@ -1,7 +1,8 @@
 CONSTANTS
-  Positions = {"lis_ctx", "lis_set", "clu", "cm", "ext", "sf"}
+  Positions = {"lis_ctx", "lis_set", "clu", "cm", "ext", "sf", "sfa", "exta"}
   Endpoints = {"full", "mosnconfig", "allrouters", "allclusters", "alllisteners", "router", "cluster", "listener"}
   MaxOps = 3
+  ArrayLen = 3
   Defects = {}
 SPECIFICATION Spec
 INVARIANTS NoLeak DumpIsPure EmitCase
